@@ -274,9 +274,56 @@ static int run_oom(int argc, char** argv) {
         crashed += forked(tmp.c_str(), out, first, 120, [&] { TR.begin_exec(); TR.emit("{\"e\":\"Scenario\",\"name\":\"oom\"}"); oom_sequence(seed0 + s); flush_events(); }); }
     fclose(out); printf("{\"paths\":%ld,\"crashed\":%ld,\"wall\":%.2f}\n", paths, crashed, tm.s()); return 0;
 }
+// ================================================================================================ LifoList replay (C17: the orphaned-slab list)
+// every edge of the LifoList.tla state graph on a REAL rml::internal::LifoList holding real (raw, slab-aligned) Block objects; tracked: top and the lock flag
+//   h_malloc lifo <schedules> <trace-out> <nblocks> <program per thread, '|'-separated: pop,push,grab>
+static int run_lifo(int argc, char** argv) {
+    using namespace rml::internal;
+    int nb = atoi(argv[4]); std::vector<std::vector<std::string>> prog; for (auto& x : vh::split(argv[5], '|')) prog.push_back(vh::split(x, ','));
+    int nth = (int)prog.size();
+    std::map<std::string, std::pair<int, int>> LAB = {{"PU1",{K_RMW,1}},{"PU2",{K_LOAD,0}},{"PU3",{K_STORE,0}},{"PU4",{K_STORE,1}},{"PO0",{K_LOAD,0}},{"PO1",{K_RMW,1}},{"PO2",{K_LOAD,0}},{"PO3",{K_STORE,0}},
+                                                      {"PO4",{K_STORE,1}},{"GR0",{K_LOAD,0}},{"GR1",{K_RMW,1}},{"GR2",{K_LOAD,0}},{"GR3",{K_STORE,0}},{"GR4",{K_STORE,1}}};   // label -> (kind, 0 top / 1 lock)
+    static char* raw = (char*)::mmap(nullptr, 16 * slabSize, PROT_READ | PROT_WRITE, MAP_PRIVATE | MAP_ANONYMOUS, -1, 0);
+    char* base = (char*)(((uintptr_t)raw + slabSize - 1) & ~(uintptr_t)(slabSize - 1)); Block* blk[8]; for (int i = 1; i <= nb; i++) blk[i] = (Block*)(base + (i - 1) * slabSize);
+    auto idof = [&](Block* b) { for (int i = 1; i <= nb; i++) if (blk[i] == b) return i; return b ? 99 : 0; };
+    TR.open(argv[3]);
+    std::ifstream in(argv[2]); std::string line; long paths = 0, steps = 0, drift = 0, mismatch = 0, stuck = 0, skipped = 0; vh::Timer tm; int shown = 0;
+    while (std::getline(in, line) && stuck < 10) {
+        LifoList* L = new LifoList; for (int i = 1; i <= nb; i++) { blk[i]->next = nullptr; L->push(blk[i]); }          // list nb -> ... -> 1 as in the model's Init0
+        untrack_all(); track(&L->top); track(&L->lock); focus_only(true);
+        TR.begin_exec(); TR.emit("{\"e\":\"Cfg\",\"blocks\":%d}", nb);
+        Sched S; S.stall_limit = 4000;
+        S.spawn(nth, [&](int id) { std::vector<Block*> mine;
+            for (auto& op : prog[id]) {
+                if (op == "pop") { Block* b = L->pop(); if (b) { mine.push_back(b); TR.emit("{\"e\":\"Take\",\"t\":%d,\"b\":[%d]}", id + 1, idof(b)); } }
+                else if (op == "grab") { Block* b = L->grab(); std::string s; for (; b; b = b->next) { mine.push_back(b); s += (s.empty() ? "" : ",") + std::to_string(idof(b)); if (mine.size() > 20) break; } TR.emit("{\"e\":\"Take\",\"t\":%d,\"b\":[%s]}", id + 1, s.c_str()); }
+                else { std::vector<Block*> g = mine; for (Block* b : g) { TR.emit("{\"e\":\"Give\",\"t\":%d,\"b\":%d}", id + 1, idof(b)); mine.erase(std::find(mine.begin(), mine.end(), b)); L->push(b); } }
+            } });
+        ++paths; bool drifted = false;
+        for (auto& tok : vh::parse_schedule(line)) {
+            auto it = LAB.find(tok.label); if (it == LAB.end()) { ++skipped; continue; }
+            int t = tok.t - 1; if (drifted) break;
+            if (!S.runnable(t)) { drifted = true; ++drift; if (shown++ < 5) fprintf(stderr, "SPEC-DRIFT path %ld: thread %d not runnable at %s\n", paths, t + 1, tok.label.c_str()); break; }
+            Pending p = S.pending(t); int where = p.addr == (const void*)&L->top ? 0 : 1;
+            if (p.kind != it->second.first || where != it->second.second) { drifted = true; ++drift; if (shown++ < 5) fprintf(stderr, "SPEC-DRIFT path %ld at %d:%s: code is about to do kind %d on %s\n", paths, t + 1, tok.label.c_str(), p.kind, where ? "the lock" : "top"); break; }
+            S.step(t); ++steps;
+            if (!tok.state.empty()) { std::string real = std::to_string(idof(vh::rawload(L->top))) + "," + std::to_string((int)L->lock.m_flag.f._M_i);
+                if (real != tok.state) { drifted = true; ++mismatch; if (shown++ < 5) fprintf(stderr, "SPEC-DRIFT path %ld at %d:%s expected %s real %s\n", paths, t + 1, tok.label.c_str(), tok.state.c_str(), real.c_str()); } }
+        }
+        int rc = drifted ? S.run_random(1000 + paths, 300000, 1 + paths % 4) : S.finish(300000);
+        if (rc != RC_OK) { ++stuck; TR.emit("{\"e\":\"Stuck\",\"rc\":\"%s\"}", rc_name(rc).c_str()); S.join_all(); continue; }
+        S.join_all(); focus_only(false);
+        { std::string s; int n = 0; for (Block* b = vh::rawload(L->top); b && n < 20; b = b->next, ++n) s += (s.empty() ? "" : ",") + std::to_string(idof(b)); TR.emit("{\"e\":\"End\",\"list\":[%s]}", s.c_str()); }
+        delete L;
+    }
+    TR.close();
+    printf("{\"paths\":%ld,\"steps\":%ld,\"drift\":%ld,\"state_mismatch\":%ld,\"stuck\":%ld,\"skipped_local\":%ld,\"wall\":%.2f}\n", paths, steps, drift, mismatch, stuck, skipped, tm.s());
+    return 0;
+}
 int main(int argc, char** argv) {
     if (argc < 3) { fprintf(stderr, "usage\n"); return 2; }
     std::string m = argv[1];
+    if (m == "lifo" && argc >= 6) return run_lifo(argc, argv);
     if (m == "sizeclass") return run_sizeclass(argv[2]);
     if (m == "heap" && argc >= 7) return run_heap(argc, argv);
     if (m == "pool" && argc >= 6) return run_pool(argc, argv);
